@@ -26,6 +26,7 @@ M = [
  ("c05-window-not-negated", "src/search.rs", "                    -beta,\n                    -alpha,\n                    SearchContext::new(),", "                    -beta,\n                    alpha,\n                    SearchContext::new(),", ["C05"]),
  ("c06-store-after-deadline", "src/search.rs", "        if self.timer.should_stop() {\n            return best_result;\n        }\n", "", ["C06"]),
  ("c06-history-not-popped-on-abort", "src/search.rs", "        self.repetition.pop();\n        result\n", "        if !self.timer.should_stop() {\n            self.repetition.pop();\n        }\n        result\n", ["C06"]),
+ ("c06-double-pop-on-abort", "src/search.rs", "        self.repetition.pop();\n        result\n", "        self.repetition.pop();\n        if self.timer.should_stop() {\n            self.repetition.pop();\n        }\n        result\n", ["C06"]),
  ("c06-unfinished-iteration-kept", "src/search.rs", "            // Only update if search completed\n            if !self.timer.should_stop() {", "            // Only update if search completed\n            if true {", ["C06","C03"]),
  ("c07-no-poll-in-quiescence", "src/search.rs", "        for mv in moves {\n            if self.timer.should_stop() {\n                break;\n            }\n", "        for mv in moves {\n", ["C07"]),
  ("c07-no-poll-in-main-loop", "src/search.rs", "        for current_move in moves {\n            if self.timer.should_stop() {\n                break;\n            }\n", "        for current_move in moves {\n", ["C07"]),
